@@ -148,7 +148,7 @@ type e2run struct {
 
 func newE2Run(tr *E2Trace, withMonitors bool) *e2run {
 	r := &e2run{tr: tr, labels: map[string]bool{}}
-	r.w = sim.NewWorld(sim.Options{Start: time.UnixMilli(tr.Start)})
+	r.w = sim.NewWorld(sim.Options{Start: time.UnixMilli(e2Epoch(tr.Start))})
 	tr.Cfg.apply(r.w)
 	if withMonitors {
 		r.mon = newMonitor(r)
@@ -167,6 +167,16 @@ func newE2Run(tr *E2Trace, withMonitors bool) *e2run {
 }
 
 func (r *e2run) label(s string) { r.labels[s] = true }
+
+// e2Epoch places the simulated epoch in the wall clock's future (deadlines of
+// AddAfter are recovered from wall-clock durations, see sim.Queue). Traces saved
+// before that change carry a 2022 start and are shifted by 3652 days.
+func e2Epoch(startMs int64) int64 {
+	if startMs < 1900000000000 {
+		return startMs + 3652*86400*1000
+	}
+	return startMs
+}
 
 func (r *e2run) jcSetup(name string) *E2JC {
 	for i := range r.tr.JCs {
@@ -303,6 +313,9 @@ func (r *e2run) apply(op E2Op) {
 		}
 	case "settle":
 		r.settle()
+	case "settleLag": // A = resource whose controller-side events are withheld
+		r.settleLag(sim.Res(op.A))
+		r.label("sustained-lag:" + op.A)
 	case "resync":
 		w.Resync(sim.Res(op.A))
 	case "gc":
@@ -335,16 +348,46 @@ func (r *e2run) apply(op E2Op) {
 
 // settle = deliver everything and run every queue to a fixpoint, with the
 // pod-ADDED exclusion applied before every job-controller step.
-func (r *e2run) settle() bool {
+func (r *e2run) settle() bool { return r.settleLag("") }
+
+// settleLag runs to a fixpoint like settle, but withholds the controller-side
+// watch events of one resource: sustained cross-resource lag over many
+// reconciles. The withheld events stay pending.
+func (r *e2run) settleLag(withhold sim.Res) bool {
 	w := r.w
-	for i := 0; i < 400; i++ {
-		progress := w.DeliverAll() > 0
+	deliver := func() int {
+		n := 0
+		for _, res := range sim.AllRes {
+			n += w.Deliver("hook", res, 0)
+			if res != withhold {
+				n += w.Deliver("ctrl", res, 0)
+			}
+		}
+		return n
+	}
+	pending := func() int {
+		n := w.PendingCount("hook")
+		for _, res := range sim.AllRes {
+			if res != withhold {
+				n += len(w.API.Pending["ctrl"][res])
+			}
+		}
+		return n
+	}
+	// With a withheld cache some reconciles legitimately keep failing and retrying
+	// (a conflict or AlreadyExists until the cache catches up): keep it short.
+	rounds, perQueue := 400, 50
+	if withhold != "" {
+		rounds, perQueue = 6, 3
+	}
+	for i := 0; i < rounds; i++ {
+		progress := deliver() > 0
 		if w.Alive {
 			for _, q := range w.Queues() {
-				for j := 0; j < 50 && q.Len() > 0 && w.Alive; j++ {
+				for j := 0; j < perQueue && q.Len() > 0 && w.Alive; j++ {
 					r.stepQueue(q)
 					progress = true
-					if w.PendingCount("ctrl")+w.PendingCount("hook") > 0 {
+					if pending() > 0 {
 						break
 					}
 				}
@@ -353,6 +396,9 @@ func (r *e2run) settle() bool {
 		if !progress {
 			return true
 		}
+	}
+	if withhold != "" {
+		return true
 	}
 	r.label("livelock")
 	return false
@@ -393,7 +439,7 @@ type e2Profile struct {
 
 func genE2Setup(t *rapid.T, p e2Profile) *E2Trace {
 	tr := &E2Trace{Profile: p.name}
-	tr.Start = time.Date(2022, 3, 4, 5, 6, 7, 0, time.UTC).Add(time.Duration(rapid.IntRange(0, 59).Draw(t, "startsec")) * time.Second).UnixMilli()
+	tr.Start = time.Date(2032, 3, 4, 5, 6, 7, 0, time.UTC).Add(time.Duration(rapid.IntRange(0, 59).Draw(t, "startsec")) * time.Second).UnixMilli()
 	tr.Cfg = E2Cfg{
 		PendingDefault: optInt64(t, "cfgPending", 0, 30, 900),
 		ForceDelete:    optInt64(t, "cfgForce", 0, 20, 900),
@@ -564,6 +610,7 @@ func genOpsOn(t *rapid.T, r *e2run, tr *E2Trace, p e2Profile, _ int) {
 				}
 			}
 			add("resync", 1, func() E2Op { return E2Op{K: "resync", A: string(rapid.SampledFrom(sim.AllRes).Draw(t, "resyncres"))} })
+			add("settleLag", 3, func() E2Op { return E2Op{K: "settleLag", A: string(rapid.SampledFrom(sim.AllRes).Draw(t, "lagres"))} })
 		}
 		if p.crashes && w.Alive {
 			add("restart", 1, func() E2Op { return E2Op{K: "restart"} })
